@@ -94,6 +94,7 @@ func scratchDir(cfg *CheckConfig) string {
 
 // RunCheck runs all obligations of one property. Returns the process exit code.
 func RunCheck(cfg *CheckConfig) int {
+	knownHits = nil
 	start := time.Now()
 	var pc PropConfig
 	if err := loadJSON(filepath.Join(cfg.Verif, "props", cfg.Property+".json"), &pc); err != nil {
@@ -297,6 +298,7 @@ func RunCheck(cfg *CheckConfig) int {
 		case "sat":
 			if kf, ok := knownOpen[r.Name]; ok {
 				fmt.Printf("KNOWN-FINDING: property=%s %s (obligation %s)\n", cfg.Property, kf.What, r.Name)
+				knownHits = append(knownHits, r.Name)
 				continue
 			}
 			violations++
@@ -306,6 +308,7 @@ func RunCheck(cfg *CheckConfig) int {
 		default:
 			if kf, ok := knownOpen[r.Name]; ok {
 				fmt.Printf("KNOWN-FINDING: property=%s %s (obligation %s, solver: %s)\n", cfg.Property, kf.What, r.Name, r.Status)
+				knownHits = append(knownHits, r.Name)
 				continue
 			}
 			bh, inBase := baseP[r.Name]
@@ -519,6 +522,10 @@ func truncate(s string, n int) string {
 	return s
 }
 
+// obligations that failed in this run and are listed as open known findings (not counted as proved,
+// reported separately in the evidence)
+var knownHits []string
+
 func writeEvidence(cfg *CheckConfig, pc *PropConfig, eng *Engine, results []*OblResult, fns []*FnReport, notes map[string]bool, undecided []string,
 	discharged, violations int, solverCount map[string]int, solverSecs, loadS, wall float64, fnCount int, covers []*OblResult) {
 	var samples []interface{}
@@ -563,7 +570,10 @@ func writeEvidence(cfg *CheckConfig, pc *PropConfig, eng *Engine, results []*Obl
 	ev := map[string]interface{}{
 		"property_id": cfg.Property, "tier": cfg.Tier, "seed": cfg.Seed, "level": "proof",
 		"coverage": map[string]interface{}{
-			"obligations": len(results), "discharged": discharged,
+			// obligations the proof claim is about: all generated ones except those that fail and are
+			// recorded as open known findings (listed under known_finding_obligations, never counted as proved)
+			"obligations": len(results) - len(knownHits), "discharged": discharged,
+			"generated_obligations": len(results), "known_finding_obligations": append([]string{}, knownHits...),
 			"checker_cmd": fmt.Sprintf("bin/govc check --property %s --tier %s", cfg.Property, cfg.Tier),
 			"trusted_base": trusted,
 			"functions_under_contract": fnNames, "functions": fnCount,
